@@ -398,6 +398,16 @@ CORPUS = [
     _P("csr_matmul", [ph("ev", (5,)), ph("ci", (5,), I32), ph("rs", (4,), I32), ph("x", (4, 2)), ph("v", (4,))],
        lambda L, ev, ci, rs, x, v: {"mx": L.csr_matmul((3, 4), ev, ci, rs, x), "mv": L.csr_matmul((3, 4), ev, ci, rs, v) * 2.0},
        tags=("reduction", "csr"), fixed_data={"ci": [0, 3, 1, 2, 3], "rs": [0, 2, 2, 5]}),
+    _P("csr_computed", [ph("ev", (5,)), ph("ev2", (5,)), dw("ci", (5,), I32), dw("ci2", (5,), I32), dw("rs", (4,), I32),
+                        ph("x", (4, 2)), ph("v", (4,))],
+       # matrices whose parts are computed / shared / wrapped twice, so that transformations have to rebuild them:
+       # t has two materialized predecessors and two successors (MPMS stores it), (ev+1) occurs twice (deduplicate),
+       # ci and ci2 wrap one buffer (deduplicate_data_wrappers)
+       lambda L, ev, ev2, ci, ci2, rs, x, v: (lambda t: {
+           "m1": L.csr_matmul((3, 4), t * 2 + t * t, ci, rs, x),
+           "m2": L.csr_matmul((3, 4), (ev + 1) * (ev + 1), ci2, rs, v) + L.csr_matmul((3, 4), ev2, ci, rs, v)})(ev + ev2),
+       tags=("reduction", "csr"),
+       fixed_data=(lambda c, r: {"ci": c, "ci2": c[:], "rs": r})(np.array([0, 3, 1, 2, 3], dtype=I32), np.array([0, 2, 2, 5], dtype=I32))),
     _P("loopy_calls", [ph("x", (3, 4)), ph("y", (3,))],
        lambda L, x, y: (lambda sqng: {"rs": L.callee_rowsum(x * 2, y) + 1, "sq": sqng[0] - x, "ng": sqng[1] * 2,
                                       "rs2": L.callee_rowsum(sqng[0], y)})(L.callee_sq_and_neg(x + 1)),
